@@ -204,10 +204,13 @@ def build(prop, extra_targets=()):
                      env={"PYTHONPATH": REPO, "PYTHONHASHSEED": "0", "VERIF_REPO": REPO}, timeout=600)
         br.cmds.append("translator/gen_tables.py")
         br.tables_msg = out.strip()[-2000:]
-        br.tables_ok = (rc == 0)
-        if rc != 0:
+        mine = "gen_c%s" % prop[1:].lower()
+        own_failed = re.search(r"TRANSLATOR-FAILED %s:.*" % mine, out)
+        br.tables_ok = (rc == 0 and not own_failed)
+        if rc != 0 or own_failed:
             br.errors.append({"stage": "translator", "file": "translator/gen_tables.py", "line": 0,
-                              "theorem": "translator(fail-closed)", "message": out.strip()[-1500:]})
+                              "theorem": "translator(fail-closed)",
+                              "message": (own_failed.group(0) if own_failed else out.strip()[-1500:])})
         # 2. Makefile
         mk = os.path.join(COQ, "Makefile")
         cp = os.path.join(COQ, "_CoqProject")
@@ -260,6 +263,8 @@ def build(prop, extra_targets=()):
             if not br.proof_ok:
                 br.errors.append({"stage": "proof", "file": pv, "line": 0, "theorem": None,
                                   "message": "Print Assumptions output missing for some theorem"})
+        if not br.tables_ok:
+            br.proof_ok = False          # the data half of the tie is broken: nothing is shown for the current source
         br.forbidden = scan_forbidden()
         if br.forbidden:
             br.proof_ok = False
